@@ -90,4 +90,24 @@ def Res.create (detected given : List (Key × Val)) (url : Option String) : Exce
 /-- the resource loop of `Deep.start`: the resources the providers returned, merged in provider order -/
 def withPlugins (base : Res) (plugins : List Res) : Res := plugins.foldl Res.merge base
 
+/-! ### get_aggregated_resources -/
+
+/-- what a detector's `detect()` did: returned a resource, or raised (with its `raise_on_error` flag) -/
+inductive DetOut
+  | ok (r : Res)
+  | fails (raiseOnError : Bool)
+
+/-- `_EMPTY_RESOURCE` -/
+def emptyRes : Res := Res.new [] none
+
+/-- `get_aggregated_resources(detectors, initial)` from the (initial or created) resource `base`: the results are
+    merged in detector order; a detector that raised counts as the empty resource — unless it asks for the exception
+    to be re-raised (`.error`; the `finally` merge before it is not observable).  Hand-written reading of the loop
+    (futures/thread pool are not modelled: results are consumed in list order whatever order they complete in). -/
+def aggregate (base : Res) : List DetOut → Except String Res
+  | [] => .ok base
+  | .ok r :: rest => aggregate (base.merge r) rest
+  | .fails false :: rest => aggregate (base.merge emptyRes) rest
+  | .fails true :: _ => .error "detector exception"
+
 end Resource
